@@ -133,6 +133,7 @@ def stepLine (p : CtorParams) (d : DSt) (w : List String) : DSt × String :=
     | _, _, _, _, _ => (d, "bad-op")
   | "upd" :: id :: ty :: lit :: wt :: "@" :: locs =>
     match id.toNat?.bind d.get, itemKey ty lit, parseLocs locs with
+    | none, _, _ => (d, "no-object")
     | some o, some key, some bs =>
       if !sane o then (d, "unsafe") else
       match key with
@@ -161,6 +162,7 @@ def stepLine (p : CtorParams) (d : DSt) (w : List String) : DSt × String :=
     | _, _, _ => (d, "bad-op")
   | "q" :: id :: ty :: lit :: "@" :: locs =>
     match id.toNat?.bind d.get, itemKey ty lit, parseLocs locs with
+    | none, _, _ => (d, "no-object")
     | some o, some key, some bs =>
       if !sane o then (d, "unsafe") else
       match key with
@@ -177,7 +179,7 @@ def stepLine (p : CtorParams) (d : DSt) (w : List String) : DSt × String :=
   | ["dump", id] =>
     match id.toNat?.bind d.get with
     | some o => (d, dumpLine "D" o)
-    | none => (d, "bad-op")
+    | none => (d, "no-object")
   | ["merge", dst, src] =>
     match dst.toNat?, src.toNat? with
     | some i, some j =>
@@ -195,11 +197,12 @@ def stepLine (p : CtorParams) (d : DSt) (w : List String) : DSt × String :=
           | some s => (d.set i (.flt s), s!"M {hexF s.total}")
           | none => (d, "throw")
         | _, _ => (d, "bad-op")
-      | _, _ => (d, "bad-op")
+      | _, _ => (d, "no-object")
     | _, _ => (d, "bad-op")
   | ["copy", src, dst] =>
     match src.toNat?.bind d.get, dst.toNat? with
     | some o, some j => (d.set j o, s!"C {totalStr o}")
+    | none, _ => (d, "no-object")
     | _, _ => (d, "bad-op")
   | ["rt", src, dst, _mode, seed] =>
     match src.toNat?.bind d.get, dst.toNat?, seed.toNat? with
@@ -215,6 +218,7 @@ def stepLine (p : CtorParams) (d : DSt) (w : List String) : DSt × String :=
         match roundTripSeed sh s seed' with
         | some t => (d.set j (.flt t), s!"R {serializedSize s} {hexF t.total}")
         | none => (d, "throw")
+    | none, _, _ => (d, "no-object")
     | _, _, _ => (d, "bad-op")
   | ["sb", x] =>
     match parseHex x with
